@@ -241,7 +241,24 @@ fn part_a(tier: Tier, findings: &Mutex<Findings>) -> serde_json::Value {
         }
     };
     // every option must have an effect on its own (non-vacuity of the differential oracle)
-    let d0 = build(&[], &table, &[]).expect("MACHINERY: default configuration rejected");
+    // the configuration with nothing given is the documented default and must be accepted; so must
+    // the three contexts (valid option sets taken from the documentation)
+    let put = |key: &str, detail: String| {
+        findings.lock().unwrap().entry(key.to_string()).or_insert_with(|| Finding { key: key.to_string(), detail, replay: json!({"check":"C16","part":"a","precondition":key}), weight: (0, 0), count: 1 });
+    };
+    let d0 = match build(&[], &table, &[]) {
+        Ok(d) => d,
+        Err(e) => {
+            put("default-configuration-rejected", format!("`trip example.com` with an empty configuration file is rejected: {e}"));
+            return json!({"aborted": "the default configuration is rejected"});
+        }
+    };
+    for (cn, c) in &contexts {
+        if let Err(e) = build(&[], &table, c) {
+            put(&format!("documented-configuration-rejected:{cn}"), format!("{c:?} is rejected: {e}"));
+            return json!({"aborted": format!("context {cn} is rejected")});
+        }
+    }
     for (i, o) in table.iter().enumerate() {
         for which in [1u8, 2] {
             if o.flag && which == 2 {
@@ -266,7 +283,9 @@ fn part_a(tier: Tier, findings: &Mutex<Findings>) -> serde_json::Value {
                     let key = format!("option-has-no-effect:{}", o.cli);
                     findings.lock().unwrap().insert(key.clone(), Finding { key, detail: format!("--{} {} leaves the effective configuration unchanged", o.cli, if which == 1 { &o.v1.0 } else { &o.v2.0 }), replay: json!({"check":"C16","part":"a","option":o.cli}), weight: (0, 0), count: 1 });
                 }
-                Err(e) => panic!("MACHINERY: option {} value {which} is rejected on its own in every context: {e}", o.cli),
+                Err(e) => {
+                    put(&format!("documented-value-rejected:{}", o.cli), format!("--{} {} (a documented value) is rejected on its own in every context: {e}", o.cli, o.value(which).0));
+                }
             }
             let _ = &d0;
         }
@@ -434,7 +453,10 @@ fn part_a(tier: Tier, findings: &Mutex<Findings>) -> serde_json::Value {
     });
     let (total, ok, err, per) = stats.into_inner().unwrap();
     let min_ok = per.iter().copied().min().unwrap_or(0);
-    assert!(min_ok > 0, "MACHINERY: an option never took part in an accepted configuration");
+    if min_ok == 0 {
+        let which: Vec<&str> = per.iter().enumerate().filter(|(_, n)| **n == 0).map(|(i, _)| table[i].cli.as_str()).collect();
+        put("option-never-accepted", format!("no placement of {which:?} was ever accepted"));
+    }
     json!({"single_option_domain_sweep_compared": sweep_total, "single_option_domain_sweep_accepted": sweep_ok, "single_option_domain_sweep_inexpressible": sweep_skipped, "options": n, "pairs": pairs.len(), "configurations_compared": total, "accepted_and_equal": ok, "rejected_on_both_sides": err, "min_accepted_comparisons_per_option": min_ok, "background_options": background.len()})
 }
 
